@@ -107,6 +107,13 @@ func libSign(mt string, ch *pki.Chain, tag string, rich bool, scheme signature.S
 		req.SigningAgent = "c01/agent"
 		req.ExtendedSignedAttributes = []signature.Attribute{{Key: "io.example.crit", Critical: true, Value: "v"}, {Key: "io.example.plain", Value: "w"}}
 	}
+	if strings.HasPrefix(tag, "T") {
+		// a countersigned envelope: its unsigned part carries a well-formed
+		// RFC 3161 token (granted by the in-process authority)
+		tsa := sims.NewTSA("granted", 2)
+		req.Timestamper = sims.DirectTimestamper{T: tsa}
+		req.TSARootCAs = tsa.Roots()
+	}
 	env, _ := signature.NewEnvelope(mt)
 	raw, err := env.Sign(req)
 	if err != nil {
@@ -140,6 +147,10 @@ func buildCorpus(full bool) *corpus {
 			}
 			ch := pki.SimpleChain(kind, 0, 2, "c01sa"+kind)
 			add(&donor{name: fmt.Sprintf("%s/%s/authority", mtName(mt), kind), mt: mt, ch: ch, raw: libSign(mt, ch, "S", true, signature.SigningSchemeX509SigningAuthority)})
+			if kind == "p256" {
+				cht := pki.SimpleChain(kind, 0, 2, "c01ts"+kind)
+				add(&donor{name: fmt.Sprintf("%s/%s/timestamped", mtName(mt), kind), mt: mt, ch: cht, raw: libSign(mt, cht, "T", true, signature.SigningSchemeX509)})
+			}
 		}
 		// the splice family: one CA, look-alike leaves
 		caKey := pki.K("p256", 6)
